@@ -286,7 +286,7 @@ def run(ctx: Ctx):
     phases["export_and_tours"] = round(ctx.elapsed() - t0, 1)
     t0 = ctx.elapsed()
     # 3. code -> spec: seeded random schedules -----------------------------------------------------
-    nrand = 210 if q else 6000
+    nrand = 190 if q else 6000
     for i in range(nrand):
         nctx = rng.choice([2, 3, 3, 4])
         made = rng.choice([(), (), ("x",), (loc.TOP,), ("x", "y", loc.TOP)])
